@@ -1,14 +1,20 @@
 /-
   C08 — formatting expressions resolve by the documented substitution/recursion rules.
 
-  Property theorems only (helper lemmas: Props/Lemmas/C08_Parse.lean, C08_Model.lean).
+  Property theorems only (helper lemmas: Props/Lemmas/C08_Parse.lean, C08_Nested.lean, C08_Model.lean,
+  C08_Aux.lean).
   Model: PypyrModel/FmtParse.lean (CPython's parser), Format.lean (code-shaped model of
   `_format_keep_type` / `_get_formatted_iterable`), FormatSpec.lean (`Spec`, the documented rules).
 
   Every statement is for all strings / contexts / fuel. Strings are quantified in one of two ways:
   * through their parse (`parseTuples s = (ts, none)`): any string CPython's parser accepts;
   * through the grammar (`Chunk`): literal text, `{{`, `}}`, `{name!conv:spec}` in any number and
-    order — `parse_grammar` shows each such string parses to exactly the tuples of its chunks.
+    order, `spec` any text whose braces balance (nested replacement fields to any depth included) —
+    `parse_grammar` shows each such string parses to exactly the tuples of its chunks.
+  The only hypothesis on the expressions is `NamedTups`: TOP-LEVEL field names are not empty / all
+  digits (those are positional arguments; formatting with a context has none). Format specs are
+  unrestricted: `Spec` works on the *expanded* spec (`Spec.expandSpec`: nested fields replaced by their
+  formatted values), and `vfmt2_expandSpec` shows the base-class `_vformat` computes exactly that.
   Names are qualified (`Format.fmtIter`) because the basic model `Pypyr.fmtIter` lives in the parent namespace.
 -/
 import Props.Lemmas.C08_Parse
@@ -23,8 +29,9 @@ open Pypyr.Format
 /-! ## the grammar -/
 
 /-- Every string of the grammar (any number of literal, `{{`, `}}` and expression chunks, field names
-    with dotted/indexed paths, conversions, brace-free specs) parses without error to the tuples its
-    chunks describe; in particular `{{` and `}}` never start a field. -/
+    with dotted/indexed paths, conversions, specs with balanced braces — so nested replacement fields
+    to any depth) parses without error to the tuples its chunks describe; in particular `{{` and `}}`
+    never start a field, and a nested field stays part of the spec text of its expression. -/
 theorem parse_grammar (chunks : List Chunk) (h : ∀ c ∈ chunks, c.WellFormed) :
     parseTuples (render chunks) = (tuplesOf chunks, none) :=
   parse_render chunks h
@@ -33,14 +40,24 @@ example : parseTuples "a{{b}} {x.y[0]!r:>5}{z[k:v]}".toList =
     ([⟨"a{".toList, none⟩, ⟨"b}".toList, none⟩, ⟨" ".toList, some ⟨"x.y[0]".toList, ">5".toList, some 'r'⟩⟩,
       ⟨[], some ⟨"z[k:v]".toList, [], none⟩⟩], none) := by rfl
 
+example : (∀ c ∈ [Chunk.text "w=".toList, Chunk.expr ⟨"i".toList, "{w:{d[k]}}>{{}}".toList, some 'r'⟩], c.WellFormed) ∧
+    parseTuples "w={i!r:{w:{d[k]}}>{{}}}".toList =
+      ([⟨"w=".toList, some ⟨"i".toList, "{w:{d[k]}}>{{}}".toList, some 'r'⟩⟩], none) := by
+  refine ⟨?_, by rfl⟩
+  intro c hc
+  simp only [List.mem_cons, List.not_mem_nil, or_false] at hc
+  rcases hc with rfl | rfl
+  · show NoBrace _; decide
+  · exact ⟨by rfl, by rfl⟩
+
 /-! ## refinement: the code-shaped model computes the documented result -/
 
-/-- `_format_keep_type` = `Spec.format` on every string that parses and whose fields are named
-    references (not empty / all-digit) with specs free of nested fields — for every context, fuel,
-    recursion flag. (Before /repo commit db7f4e2 this failed for a single expression with a conversion:
-    see `single_conversion_formats_converted_text_pre_fix`.) -/
+/-- `_format_keep_type` = `Spec.format` on every string that parses and whose TOP-LEVEL expressions are
+    named references (not empty / all-digit) — any format specs, nested replacement fields included —
+    for every context, fuel, recursion flag. (Before /repo commit db7f4e2 this failed for a single
+    expression with a conversion: see `single_conversion_formats_converted_text_pre_fix`.) -/
 theorem fmtKeepType_refines_spec (fuel : Nat) (ctx : Ctx) (isRec : Bool) (s : List Char) (ts : List Tup)
-    (hp : parseTuples s = (ts, none)) (hg : GoodTups ts) :
+    (hp : parseTuples s = (ts, none)) (hg : NamedTups ts) :
     Format.fmtKeepType (fuel + 1) ctx isRec s =
       Spec.format (fun r v => Format.fmtIter fuel ctx r v) ctx isRec (parts ts) := by
   unfold Format.fmtKeepType
@@ -48,14 +65,14 @@ theorem fmtKeepType_refines_spec (fuel : Nat) (ctx : Ctx) (isRec : Bool) (s : Li
 
 /-- The same over the grammar: no parse hypothesis left. -/
 theorem fmtKeepType_refines_spec_grammar (fuel : Nat) (ctx : Ctx) (isRec : Bool) (chunks : List Chunk)
-    (hw : ∀ c ∈ chunks, c.WellFormed) (hg : GoodTups (tuplesOf chunks)) :
+    (hw : ∀ c ∈ chunks, c.WellFormed) (hg : NamedTups (tuplesOf chunks)) :
     Format.fmtKeepType (fuel + 1) ctx isRec (render chunks) =
       Spec.format (fun r v => Format.fmtIter fuel ctx r v) ctx isRec (parts (tuplesOf chunks)) :=
   fmtKeepType_refines_spec fuel ctx isRec _ _ (parse_render chunks hw) hg
 
 /-- … and at the API: `Context.get_formatted_value(s)` for a str `s`. -/
 theorem fmtVal_str_refines_spec (fuel : Nat) (ctx : Ctx) (s : String) (ts : List Tup)
-    (hp : parseTuples s.toList = (ts, none)) (hg : GoodTups ts) :
+    (hp : parseTuples s.toList = (ts, none)) (hg : NamedTups ts) :
     Format.fmtVal (fuel + 2) ctx (.str s) =
       Spec.format (fun r v => Format.fmtIter fuel ctx r v) ctx false (parts ts) := by
   unfold Format.fmtVal
@@ -69,12 +86,16 @@ def exCtx : Ctx :=
 example : parseTuples "-{a}-{l[1]:rf}|{b:>4}".toList =
       ([⟨['-'], some ⟨['a'], [], none⟩⟩, ⟨['-'], some ⟨"l[1]".toList, ['r', 'f'], none⟩⟩,
         ⟨['|'], some ⟨['b'], ['>', '4'], none⟩⟩], none) ∧
-    GoodTups [⟨['-'], some ⟨['a'], [], none⟩⟩, ⟨['-'], some ⟨"l[1]".toList, ['r', 'f'], none⟩⟩,
+    NamedTups [⟨['-'], some ⟨['a'], [], none⟩⟩, ⟨['-'], some ⟨"l[1]".toList, ['r', 'f'], none⟩⟩,
         ⟨['|'], some ⟨['b'], ['>', '4'], none⟩⟩] ∧
     Format.fmtVal 8 exCtx (.str "-{a}-{l[1]:rf}|{b:>4}") = .ok (.str "-x{b}-5|   5") := by
-  refine ⟨by rfl, goodTups_of_check _ (by rfl), by rfl⟩
+  refine ⟨by rfl, namedTups_of_check _ (by rfl), by rfl⟩
 
-/-- On `specInDomain` the model's `format(v, spec)` never answers "outside the modelled domain". -/
+/-- On `specInDomain` the model's `format(v, spec)` never answers "outside the modelled domain".
+    `specInDomain` is the exact domain predicate: every str / int / bool value with any spec of the standard
+    mini-language `[[fill]align][sign][z][#][0][width][,|_][.precision][type]`, except the float presentation
+    types on an int, non-ASCII characters outside the fill position, widths / precisions of more than 4 digits
+    and `c` on a surrogate; the empty spec on every kind; no non-empty spec on a float. -/
 theorem formatField_in_domain (v : Val) (spec : List Char) (h : specInDomain v spec = true) (e : Exc)
     (he : formatField v spec = .error e) : e.name ≠ "OutOfDomain" := by
   unfold specInDomain at h
@@ -83,10 +104,77 @@ theorem formatField_in_domain (v : Val) (spec : List Char) (h : specInDomain v s
 
 example : specInDomain (.int (-5)) "x=+6".toList = true ∧ formatField (.int (-5)) "x=+6".toList = .ok "-xxxx5".toList ∧
     specInDomain (.str "ab") "^7".toList = true ∧ formatField (.str "ab") "^7".toList = .ok "  ab   ".toList ∧
-    specInDomain (.int 5) ".2f".toList = false := by
+    specInDomain (.int 5) ".2f".toList = false ∧ specInDomain (.flt 3 1) "5".toList = false ∧
+    specInDomain (.int 55296) "c".toList = false ∧ specInDomain (.int 5) "12345".toList = false := by
+  refine ⟨by rfl, by rfl, by rfl, by rfl, by rfl, by rfl, by rfl, by rfl⟩
+
+/-- grouping, alternate form, integer presentation types, precision — values and error texts as CPython's -/
+example :
+    formatField (.int 1234567) ",".toList = .ok "1,234,567".toList ∧
+    formatField (.int 1234567) "_".toList = .ok "1_234_567".toList ∧
+    -- zero padding continues the grouping into the zeros (and may overshoot the width by one)
+    formatField (.int 1234) "08,".toList = .ok "0,001,234".toList ∧
+    formatField (.int 1234) "07,".toList = .ok "001,234".toList ∧
+    formatField (.int (-1234)) "=+012_".toList = .ok "-000_001_234".toList ∧
+    formatField (.int 255) "#x".toList = .ok "0xff".toList ∧
+    formatField (.int (-255)) "+#X".toList = .ok "-0XFF".toList ∧
+    formatField (.int 255) "#012_b".toList = .ok "0b0_1111_1111".toList ∧
+    formatField (.int 255) "*^+9o".toList = .ok "**+377***".toList ∧
+    formatField (.int 65) "c".toList = .ok "A".toList ∧
+    formatField (.int 65) "05c".toList = .ok "0000A".toList ∧
+    formatField (.bool true) "+05d".toList = .ok "+0001".toList ∧
+    formatField (.int 1234567) "n".toList = .ok "1234567".toList ∧
+    formatField (.str "abcdef") ".3".toList = .ok "abc".toList ∧
+    formatField (.str "abcdef") "*^7.2".toList = .ok "**ab***".toList ∧
+    formatField (.int 5) ".2".toList = .error (valueError "Precision not allowed in integer format specifier") ∧
+    formatField (.int 5) ",x".toList = .error (valueError "Cannot specify ',' with 'x'.") ∧
+    formatField (.int 5) ",_".toList = .error (valueError "Cannot specify both ',' and '_'.") ∧
+    formatField (.str "a") ",".toList = .error (valueError "Cannot specify ',' with 's'.") ∧
+    formatField (.str "a") ".".toList = .error (valueError "Format specifier missing precision") ∧
+    formatField (.str "a") "#".toList = .error (valueError "Alternate form (#) not allowed in string format specifier") ∧
+    formatField (.int 65) "+c".toList = .error (valueError "Sign not allowed with integer format specifier 'c'") ∧
+    formatField (.int (-1)) "c".toList = .error ⟨"OverflowError", "%c arg not in range(0x110000)"⟩ ∧
+    formatField (.int 5) "zd".toList = .error (valueError "Negative zero coercion (z) not allowed in integer format specifier") := by
+  refine ⟨by rfl, by rfl, by rfl, by rfl, by rfl, by rfl, by rfl, by rfl, by rfl, by rfl, by rfl, by rfl, by rfl, by rfl,
+    by rfl, by rfl, by rfl, by rfl, by rfl, by rfl, by rfl, by rfl, by rfl, by rfl⟩
+
+/-- attributes of the special-tag objects: `.value`, `.yaml_tag` -/
+example :
+    Format.fmtVal 8 exCtx (.str "{s.value:ff}") = .ok (.str "{raw}") ∧
+    Format.fmtVal 8 exCtx (.str "{s.yaml_tag:ff}") = .ok (.str "!sic") ∧
+    Format.fmtVal 8 (("p", .py (.binop .add (.name "b") (.const (.int 1)))) :: exCtx) (.str "{p.value}|{p.yaml_tag}") =
+      .ok (.str "(b + 1)|!py") ∧
+    Format.fmtVal 8 (("j", .jsonify (.list [.int 1, .str "{b}"])) :: exCtx) (.str "v={j.value[1]:rf}") = .ok (.str "v=5") ∧
+    Format.fmtVal 8 exCtx (.str "{b.value}") = .error ⟨"AttributeError", "'int' object has no attribute 'value'"⟩ := by
   refine ⟨by rfl, by rfl, by rfl, by rfl, by rfl⟩
 
 /-! ## a string that is exactly one expression -/
+
+/-- A string that is exactly one expression `{name!conv:spec}` (any spec of the grammar, nested fields
+    included): look the object up, expand the spec, then `Spec.singleObj` — the object itself,
+    recursively formatted unless the expanded spec says `ff`, converted, and made text only by a
+    format spec proper. -/
+theorem single_field (fuel : Nat) (ctx : Ctx) (isRec : Bool) (f : FieldT) (hw : f.WellFormed) (hnamed : Named f.name) :
+    Format.fmtKeepType (fuel + 1) ctx isRec f.text =
+      (match getField ctx f.name with
+       | .error e => .error e
+       | .ok obj => match Spec.expandSpec ctx f.spec with
+         | .error e => .error e
+         | .ok spec => Spec.singleObj (fun r v => Format.fmtIter fuel ctx r v) isRec f.conv obj spec) := by
+  have hw' : ∀ c ∈ [Chunk.expr f], c.WellFormed := by
+    intro c hc; simp at hc; subst hc; exact hw
+  have hg : NamedTups (tuplesOf [Chunk.expr f]) := by
+    intro t ht g hg
+    simp [tuplesOf, tuplesFrom] at ht; subst ht; simp at hg; subst hg
+    exact hnamed
+  have := fmtKeepType_refines_spec_grammar fuel ctx isRec _ hw' hg
+  simp only [render, Chunk.render, List.append_nil] at this
+  rw [this]
+  simp only [tuplesOf, tuplesFrom, List.nil_append, parts, Tup.parts, if_true, List.append_nil,
+    Spec.format, formatSingle_eq]
+  cases getField ctx f.name with
+  | error e => rfl
+  | ok obj => simp only []; cases Spec.expandSpec ctx f.spec <;> rfl
 
 /-- `'{name}'` yields the referenced object itself, recursively formatted — whatever its kind
     (no cast to str). -/
@@ -96,21 +184,13 @@ theorem single_expression_keeps_type (fuel : Nat) (ctx : Ctx) (name : List Char)
       (match getField ctx name with
        | .error e => .error e
        | .ok obj => Format.fmtIter fuel ctx false obj) := by
-  have hw : ∀ c ∈ [Chunk.expr ⟨name, [], none⟩], c.WellFormed := by
-    intro c hc; simp at hc; subst hc; exact ⟨hn, by intro c hc; simp at hc⟩
-  have hg : GoodTups (tuplesOf [Chunk.expr ⟨name, [], none⟩]) := by
-    intro t ht f hf
-    simp [tuplesOf, tuplesFrom] at ht; subst ht; simp at hf; subst hf
-    exact ⟨hnamed, by intro c hc; simp at hc⟩
-  have := fmtKeepType_refines_spec_grammar fuel ctx false _ hw hg
-  simp only [render, Chunk.render, FieldT.text, FieldT.tail, List.append_nil, if_true, List.nil_append] at this
-  rw [this]
-  simp only [tuplesOf, tuplesFrom, List.nil_append, parts, Tup.parts, if_true, List.append_nil,
-    Spec.format, Spec.formatSingle, Spec.isRf, Spec.isFf, Spec.specBody, bind, Except.bind,
-    pure, Except.pure, convertField]
+  have := single_field fuel ctx false ⟨name, [], none⟩ ⟨hn, by rfl⟩ hnamed
+  simp only [FieldT.text, FieldT.tail, if_true, List.nil_append] at this
+  rw [this, expandSpec_plain ctx [] noBrace_nil]
   cases getField ctx name with
   | error e => rfl
   | ok obj =>
+    simp only [Spec.singleObj, Spec.isRf, Spec.isFf, Spec.specBody, bind, Except.bind, pure, Except.pure, convertField]
     simp
     cases Format.fmtIter fuel ctx false obj <;> rfl
 
@@ -139,22 +219,13 @@ theorem single_conversion_converts_formatted_object (fuel : Nat) (ctx : Ctx) (na
        | .ok obj => match Format.fmtIter fuel ctx false obj with
          | .error e => .error e
          | .ok o => convertField o (some c)) := by
-  have hw : ∀ ch ∈ [Chunk.expr ⟨name, [], some c⟩], ch.WellFormed := by
-    intro ch hc; simp at hc; subst hc; exact ⟨hn, by intro c hc; simp at hc⟩
-  have hg : GoodTups (tuplesOf [Chunk.expr ⟨name, [], some c⟩]) := by
-    intro t ht f hf
-    simp [tuplesOf, tuplesFrom] at ht; subst ht; simp at hf; subst hf
-    exact ⟨hnamed, by intro c hc; simp at hc⟩
-  have := fmtKeepType_refines_spec_grammar fuel ctx false _ hw hg
-  simp only [render, Chunk.render, FieldT.text, FieldT.tail, List.append_nil, if_true, List.nil_append,
-    List.cons_append] at this
-  rw [this]
-  simp only [tuplesOf, tuplesFrom, List.nil_append, parts, Tup.parts, if_true, List.append_nil,
-    Spec.format, Spec.formatSingle, Spec.isRf, Spec.isFf, Spec.specBody, bind, Except.bind,
-    pure, Except.pure]
+  have := single_field fuel ctx false ⟨name, [], some c⟩ ⟨hn, by rfl⟩ hnamed
+  simp only [FieldT.text, FieldT.tail, if_true, List.nil_append, List.cons_append] at this
+  rw [this, expandSpec_plain ctx [] noBrace_nil]
   cases getField ctx name with
   | error e => rfl
   | ok obj =>
+    simp only [Spec.singleObj, Spec.isRf, Spec.isFf, Spec.specBody, bind, Except.bind, pure, Except.pure]
     simp
     cases Format.fmtIter fuel ctx false obj with
     | error e => rfl
@@ -175,7 +246,7 @@ theorem single_conversion_formats_converted_text_pre_fix (fi : Bool → Val → 
          | .error e => .error e
          | .ok txt => fi false txt) := by
   have hw : ∀ ch ∈ [Chunk.expr ⟨name, [], some c⟩], ch.WellFormed := by
-    intro ch hc; simp at hc; subst hc; exact ⟨hn, by intro c hc; simp at hc⟩
+    intro ch hc; simp at hc; subst hc; exact ⟨hn, by rfl⟩
   have hp := parse_render _ hw
   simp only [render, Chunk.render, FieldT.text, FieldT.tail, List.append_nil, if_true, List.nil_append,
     List.cons_append, tuplesOf, tuplesFrom] at hp
@@ -224,10 +295,13 @@ example :
 /-- **≥ 2 parts (or none) ⇒ a str, each expression formatted one level deep**: the result is Python's own
     `str.format` of the parts (`Spec.pyFormat`: `format(convert(lookup), spec)` concatenated with the
     literals); whatever braces the referenced strings contain stay as they are, because nothing referenced
-    is formatted again (`pyFormat` has no access to the recursive formatter). -/
+    is formatted again (`pyFormat` has no access to the recursive formatter). "No `rf`" is a statement
+    about the EXPANDED specs (`{s:{k}}` with `k = 'rf'` is recursive); for a spec without nested fields
+    that is the spec as written (`expandSpec_plain`). -/
 theorem mixed_is_flat_str (fuel : Nat) (ctx : Ctx) (s : List Char) (ts : List Tup)
-    (hp : parseTuples s = (ts, none)) (hg : GoodTups ts)
-    (hlen : (parts ts).length ≠ 1) (hnorf : ∀ f, Part.fld f ∈ parts ts → Spec.isRf f.spec = false) :
+    (hp : parseTuples s = (ts, none)) (hg : NamedTups ts)
+    (hlen : (parts ts).length ≠ 1)
+    (hnorf : ∀ f, Part.fld f ∈ parts ts → ∀ spec, Spec.expandSpec ctx f.spec = .ok spec → Spec.isRf spec = false) :
     Format.fmtKeepType (fuel + 1) ctx false s = Spec.pyFormat ctx (parts ts) ∧
     (∀ v, Format.fmtKeepType (fuel + 1) ctx false s = .ok v → ∃ t, v = .str t) := by
   have hfmt : Format.fmtKeepType (fuel + 1) ctx false s = Spec.pyFormat ctx (parts ts) := by
@@ -258,9 +332,11 @@ example : Format.fmtVal 8 exCtx (.str "<{a}> {b:>3}") = .ok (.str "<x{b}>   5") 
 
 /-- `:rf` — the referenced object is formatted recursively (`deep true`) before conversion and
     `format()`, in a single expression and in a mixed string alike; so is every expression met inside a
-    recursive format unless it says `:ff` (`isRec = true`: the flag the recursion hands down). -/
-theorem rf_recurses (deep : Bool → Val → Except Exc Val) (ctx : Ctx) (isRec : Bool) (f : FieldT)
-    (h : Spec.isRf f.spec = true ∨ (isRec = true ∧ Spec.isFf f.spec = false)) :
+    recursive format unless it says `:ff` (`isRec = true`: the flag the recursion hands down).
+    `rf` / `ff` are read off the expanded spec `spec`. -/
+theorem rf_recurses (deep : Bool → Val → Except Exc Val) (ctx : Ctx) (isRec : Bool) (f : FieldT) (spec : List Char)
+    (hx : Spec.expandSpec ctx f.spec = .ok spec)
+    (h : Spec.isRf spec = true ∨ (isRec = true ∧ Spec.isFf spec = false)) :
     Spec.fieldObj deep ctx isRec f =
       (match getField ctx f.name with
        | .error e => .error e
@@ -268,9 +344,14 @@ theorem rf_recurses (deep : Bool → Val → Except Exc Val) (ctx : Ctx) (isRec 
          | .error e => .error e
          | .ok o => match convertField o f.conv with
            | .error e => .error e
-           | .ok o' => .ok (o', none)) := by
-  apply fieldObj_rec
-  rcases h with h | ⟨h1, h2⟩ <;> simp [*]
+           | .ok o' => .ok (o', none, spec)) := by
+  rw [fieldObj_eq, hx]
+  cases getField ctx f.name with
+  | error e => rfl
+  | ok obj =>
+    simp only []
+    apply mode_rec
+    rcases h with h | ⟨h1, h2⟩ <;> simp [*]
 
 /-- `'{name:rf}'`: the referenced object, formatted with the recursive flag on (so that mixed strings
     inside it recurse too), type kept. -/
@@ -280,65 +361,151 @@ theorem rf_single (fuel : Nat) (ctx : Ctx) (isRec : Bool) (name : List Char)
       (match getField ctx name with
        | .error e => .error e
        | .ok obj => Format.fmtIter fuel ctx true obj) := by
-  have hw : ∀ c ∈ [Chunk.expr ⟨name, ['r', 'f'], none⟩], c.WellFormed := by
-    intro c hc; simp at hc; subst hc; exact ⟨hn, by intro c hc; simp at hc; rcases hc with rfl | rfl <;> decide⟩
-  have hg : GoodTups (tuplesOf [Chunk.expr ⟨name, ['r', 'f'], none⟩]) := by
-    intro t ht f hf
-    simp [tuplesOf, tuplesFrom] at ht; subst ht; simp at hf; subst hf
-    exact ⟨hnamed, by intro c hc; simp at hc; rcases hc with rfl | rfl <;> decide⟩
-  have := fmtKeepType_refines_spec_grammar fuel ctx isRec _ hw hg
-  simp only [render, Chunk.render, FieldT.text, FieldT.tail, List.append_nil, List.nil_append] at this
+  have := single_field fuel ctx isRec ⟨name, ['r', 'f'], none⟩ ⟨hn, by rfl⟩ hnamed
+  simp only [FieldT.text, FieldT.tail, List.nil_append] at this
   have e : (if (['r', 'f'] : List Char) = [] then [] else ':' :: ['r', 'f']) ++ ['}'] = [':', 'r', 'f', '}'] := by decide
   rw [e] at this
-  rw [this]
-  simp only [tuplesOf, tuplesFrom, List.nil_append, parts, Tup.parts, if_true, List.append_nil,
-    Spec.format, Spec.formatSingle, bind, Except.bind, pure, Except.pure, convertField]
+  rw [this, expandSpec_plain ctx ['r', 'f'] (by decide)]
   have h0 : Spec.isFf ['r', 'f'] = false := by decide
   have h1 : Spec.isRf ['r', 'f'] = true := by decide
   have h2 : Spec.specBody ['r', 'f'] = [] := by decide
-  simp only [h0, h1, h2, Bool.true_or, if_true, Bool.false_eq_true, if_false]
   cases hgf : getField ctx name with
   | error e => rfl
-  | ok obj => simp only []; cases Format.fmtIter fuel ctx true obj <;> simp
+  | ok obj =>
+    simp only [Spec.singleObj, h0, h1, h2, Bool.true_or, if_true, Bool.false_eq_true, if_false, bind, Except.bind,
+      pure, Except.pure, convertField]
+    cases Format.fmtIter fuel ctx true obj <;> simp
 
 /-- `:ff` — the referenced object is never formatted, not even inside a recursive format. -/
-theorem ff_is_flat (deep : Bool → Val → Except Exc Val) (ctx : Ctx) (isRec : Bool) (f : FieldT)
-    (h : Spec.isFf f.spec = true) :
+theorem ff_is_flat (deep : Bool → Val → Except Exc Val) (ctx : Ctx) (isRec : Bool) (f : FieldT) (spec : List Char)
+    (hx : Spec.expandSpec ctx f.spec = .ok spec) (h : Spec.isFf spec = true) :
     Spec.fieldObj deep ctx isRec f =
       (match getField ctx f.name with
        | .error e => .error e
        | .ok obj => match convertField obj f.conv with
          | .error e => .error e
-         | .ok o => .ok (o, none)) :=
-  fieldObj_ff deep ctx isRec f h
+         | .ok o => .ok (o, none, spec)) := by
+  rw [fieldObj_eq, hx]
+  cases getField ctx f.name with
+  | error e => rfl
+  | ok obj => simp only []; exact mode_ff deep isRec f.conv obj spec h
 
 /-- `'{name:ff}'` returns the referenced object itself, unformatted, for a single expression too. -/
 theorem ff_single (fuel : Nat) (ctx : Ctx) (isRec : Bool) (name : List Char)
     (hn : isFieldName false name = true) (hnamed : Named name) :
     Format.fmtKeepType (fuel + 1) ctx isRec ('{' :: (name ++ [':', 'f', 'f', '}'])) = getField ctx name := by
-  have hw : ∀ c ∈ [Chunk.expr ⟨name, ['f', 'f'], none⟩], c.WellFormed := by
-    intro c hc; simp at hc; subst hc; exact ⟨hn, by intro c hc; simp at hc; rcases hc with rfl | rfl <;> decide⟩
-  have hg : GoodTups (tuplesOf [Chunk.expr ⟨name, ['f', 'f'], none⟩]) := by
-    intro t ht f hf
-    simp [tuplesOf, tuplesFrom] at ht; subst ht; simp at hf; subst hf
-    exact ⟨hnamed, by intro c hc; simp at hc; rcases hc with rfl | rfl <;> decide⟩
-  have := fmtKeepType_refines_spec_grammar fuel ctx isRec _ hw hg
-  simp only [render, Chunk.render, FieldT.text, FieldT.tail, List.append_nil, List.nil_append] at this
+  have := single_field fuel ctx isRec ⟨name, ['f', 'f'], none⟩ ⟨hn, by rfl⟩ hnamed
+  simp only [FieldT.text, FieldT.tail, List.nil_append] at this
   have e : (if (['f', 'f'] : List Char) = [] then [] else ':' :: ['f', 'f']) ++ ['}'] = [':', 'f', 'f', '}'] := by decide
   rw [e] at this
-  rw [this]
-  simp only [tuplesOf, tuplesFrom, List.nil_append, parts, Tup.parts, if_true, List.append_nil,
-    Spec.format, Spec.formatSingle, bind, Except.bind, pure, Except.pure, convertField]
+  rw [this, expandSpec_plain ctx ['f', 'f'] (by decide)]
   have h1 : Spec.isFf ['f', 'f'] = true := by decide
   have h2 : Spec.specBody ['f', 'f'] = [] := by decide
-  simp only [h1, h2, if_true]
-  cases getField ctx name <;> simp
+  cases getField ctx name with
+  | error e => rfl
+  | ok obj =>
+    simp only [Spec.singleObj, h1, h2, if_true, bind, Except.bind, pure, Except.pure, convertField]
 
 example : Format.fmtVal 8 exCtx (.str "{n:rf}") = .ok (.dict [(.str "k", .str "x5")]) ∧
     Format.fmtVal 8 exCtx (.str "{n:ff}") = .ok (.dict [(.str "k", .str "{a}")]) ∧
     Format.fmtVal 8 exCtx (.str "v={a:rf}") = .ok (.str "v=x5") ∧
     Format.fmtVal 8 exCtx (.str "v={a:ff}") = .ok (.str "v=x{b}") := by
   refine ⟨by rfl, by rfl, by rfl, by rfl⟩
+
+/-! ## replacement fields nested in a format spec -/
+
+/-- **What the base class does with a format spec is the documented expansion**: `_format_keep_type`
+    (recursion depth 2) hands the spec to `Formatter._vformat` with depth 1; on the numbering state of a
+    string whose expressions so far had names, that call returns `Spec.expandSpec` — literals with
+    `{{`/`}}` unescaped, each nested field replaced by `format(convert(lookup), its own expanded spec)`,
+    a field inside the spec of a nested field failing with "Max string recursion exceeded" (after its
+    lookup and conversion), the first failing piece deciding, a syntax error last — and hands the numbering state back unchanged. For every context and spec text. -/
+theorem nested_spec_expansion (ctx : Ctx) (spec : List Char) :
+    vfmt 2 ctx spec (some 0) =
+      (match Spec.expandSpec ctx spec with
+       | .error e => .error e
+       | .ok t => .ok (t, some 0)) :=
+  vfmt2_expandSpec ctx spec
+
+/-- a spec without nested fields is its own expansion (so the corollaries about `{name}`, `{name:rf}`, …
+    speak about the spec as written) -/
+theorem plain_spec_unchanged (ctx : Ctx) (spec : List Char) (h : NoBrace spec) : Spec.expandSpec ctx spec = .ok spec :=
+  expandSpec_plain ctx spec h
+
+/-- **`'{name:{w}}'`** — a single expression whose whole spec is taken from the context: the referenced
+    object, recursively formatted (type kept when `str(ctx[w])` is empty / `rf`, flat when it says `ff`),
+    then `format(object, str(ctx[w]))`. `'{x:>{w}}'` likewise with `>` in front (`expandSpec_one_field`). -/
+theorem nested_spec_single (fuel : Nat) (ctx : Ctx) (name w : List Char)
+    (hn : isFieldName false name = true) (hnamed : Named name)
+    (hw : isFieldName false w = true) (hwb : NoBrace w) (hwn : Named w) :
+    Format.fmtKeepType (fuel + 1) ctx false ('{' :: (name ++ ':' :: '{' :: (w ++ ['}', '}']))) =
+      (match getField ctx name with
+       | .error e => .error e
+       | .ok obj => match getField ctx w with
+         | .error e => .error e
+         | .ok wv => match formatField wv [] with
+           | .error e => .error e
+           | .ok spec => Spec.singleObj (fun r v => Format.fmtIter fuel ctx r v) false none obj spec) := by
+  have hbal : specBalanced 0 ('{' :: (w ++ ['}'])) = true := by
+    have : ∀ (cs : List Char) (d : Nat), NoBrace cs → specBalanced (d + 1) (cs ++ ['}']) = specBalanced d [] := by
+      intro cs
+      induction cs with
+      | nil => intro d _; simp [specBalanced]
+      | cons c cs ih =>
+        intro d h
+        have hc := h c (by simp)
+        simp only [List.cons_append, specBalanced, hc.1, hc.2, if_false]
+        exact ih d (fun x hx => h x (by simp [hx]))
+    simp only [specBalanced, if_true]
+    rw [this w 0 hwb]; rfl
+  have := single_field fuel ctx false ⟨name, '{' :: (w ++ ['}']), none⟩ ⟨hn, hbal⟩ hnamed
+  simp only [FieldT.text, FieldT.tail, List.nil_append, reduceCtorEq, if_false, List.cons_append, List.append_assoc] at this
+  rw [this]
+  have hx := expandSpec_one_field ctx w hw hwn [] [] noBrace_nil noBrace_nil
+  simp only [List.nil_append, List.append_nil] at hx
+  rw [hx]
+  cases getField ctx name with
+  | error e => rfl
+  | ok obj =>
+    simp only []
+    cases getField ctx w with
+    | error e => rfl
+    | ok wv => simp only []; cases formatField wv [] <;> rfl
+
+/-- concrete nested specs: width / whole spec / `rf` / `ff` taken from the context, a nested field with a
+    spec of its own, fields at the second level -/
+def nestCtx : Ctx :=
+  [("i", .int 42), ("x", .str "ab"), ("w", .int 6), ("sp", .str "*^8"), ("rfk", .str "rf"),
+   ("s", .str "v={i}"), ("ffk", .str "ff"), ("one", .int 1)]
+
+example : Format.fmtVal 8 nestCtx (.str "{i:{w}}") = .ok (.str "    42") ∧
+    Format.fmtVal 8 nestCtx (.str "{x:>{w}}|") = .ok (.str "    ab|") ∧
+    Format.fmtVal 8 nestCtx (.str "{i:*<{w}}") = .ok (.str "42****") ∧
+    Format.fmtVal 8 nestCtx (.str "[{x:{sp}}]") = .ok (.str "[***ab***]") ∧
+    -- the spec expands to `rf`: the mixed string formats `s` recursively; without it, one level
+    Format.fmtVal 8 nestCtx (.str "a {s:{rfk}}") = .ok (.str "a v=42") ∧
+    Format.fmtVal 8 nestCtx (.str "a {s}") = .ok (.str "a v={i}") ∧
+    -- … to `ff`: a single expression stays unformatted
+    Format.fmtVal 8 nestCtx (.str "{s:{ffk}}") = .ok (.str "v={i}") ∧
+    Format.fmtVal 8 nestCtx (.str "{s}") = .ok (.str "v=42") ∧
+    -- a nested field may have a spec of its own, as long as that has no field: `{w:>3}` = '  6' is no spec …
+    Format.fmtVal 8 nestCtx (.str "{i:{w:>3}}") = .error (errInvalidSpec "  6".toList "int") ∧
+    -- … `{one:0>2}` = '01' is: width 1
+    Format.fmtVal 8 nestCtx (.str "{x:>{w}}{i:{one:0>2}}|") = .ok (.str "    ab42|") ∧
+    -- a field at the second level always fails: expanding its spec (even an empty one) is one level too deep
+    Format.fmtVal 8 nestCtx (.str "{i:{w:{one}}}") = .error errMaxRecursion ∧
+    Format.fmtVal 8 nestCtx (.str "{i:{w:{w:{w}}}}") = .error errMaxRecursion ∧
+    Spec.expandSpec nestCtx "{w:{w:{w}}}".toList = .error errMaxRecursion ∧
+    -- … but it is looked up first: a missing key at the second level is the key-lookup error
+    Format.fmtVal 8 nestCtx (.str "{i:{w:{zz}}}") = .error (keyNotInContext "zz") ∧
+    -- `{}` / `{0}` inside a spec: positional arguments, there are none
+    Format.fmtVal 8 nestCtx (.str "{i:{}}") = .error errArgsNone ∧
+    Format.fmtVal 8 nestCtx (.str "{i:{0}}") = .error errArgsNone ∧
+    -- lazy parser: the lookup error of the first nested field wins over the syntax error after it
+    Spec.expandSpec nestCtx "{zz}{".toList = .error (keyNotInContext "zz") ∧
+    Spec.expandSpec nestCtx ">{w}{{}}".toList = .ok ">6{}".toList := by
+  refine ⟨by rfl, by rfl, by rfl, by rfl, by rfl, by rfl, by rfl, by rfl, by rfl, by rfl, by rfl, by rfl, by rfl, by rfl,
+    by rfl, by rfl, by rfl, by rfl⟩
 
 /-! ## escapes -/
 
@@ -354,7 +521,7 @@ theorem escapes (fuel : Nat) (ctx : Ctx) (isRec : Bool) (chunks : List Chunk) (h
     · trivial
     · trivial
   have hl := tuplesFrom_literal chunks h [] [] (by intro p hp; simp [parts] at hp)
-  have hg : GoodTups (tuplesOf chunks) := by
+  have hg : NamedTups (tuplesOf chunks) := by
     intro t ht f hf
     -- a tuple with a field contributes a `.fld` part, but all parts are literals
     obtain ⟨t', ht'⟩ := hl.1 _ (fld_mem_parts _ t f ht hf)
@@ -434,29 +601,50 @@ theorem missing_key_first_field (fuel : Nat) (ctx : Ctx) (isRec : Bool) (s : Lis
     Format.fmtKeepType (fuel + 1) ctx isRec s = .error (keyNotInContext k) := by
   unfold Format.fmtKeepType keepType
   simp only [hp]
-  unfold ktLoop
-  simp only
-  have : ktField (fun r v => Format.fmtIter fuel ctx r v) ctx isRec f (some 0) = .error (keyNotInContext k) := by
-    unfold ktField
-    rw [autoNumber_named _ _ hn]
-    simp only
-    have hg : getField ctx f.name = .error (keyNotInContext k) := by
-      unfold getField
-      rw [hascii]
-      unfold firstKey at hk
-      cases hs : splitField f.name with
-      | error e => simp [hs] at hk
-      | ok r =>
-        obtain ⟨first, accs, err⟩ := r
-        simp only [hs] at hk ⊢
-        cases first with
-        | int n => simp at hk
-        | str kk =>
-          simp only [Option.some.injEq] at hk
-          subst hk
-          simp [getValue, hmiss]
-    rw [hg]
-  rw [this]
+  rw [ktLoop_cons]
+  simp only [ktField_missing _ ctx isRec f _ hn k hk hmiss hascii]
+
+/-- **The key-lookup error at ANY position.** The string parses to the tuples `pre`, then an expression
+    `f` whose first name `k` is not a context key, then anything (`rest`, and a syntax error `perr` or
+    none). If every expression before `f` is a named reference that *resolves* — its lookup, the
+    expansion of its format spec, its `rf` recursion and the conversion that goes with it succeed
+    (`Spec.fieldObj … = .ok _`, the documented meaning of the expression) — then formatting raises
+    exactly `KeyNotInContextError(k)`: no partial result, and no other error can pre-empt it — not a
+    `format()` error of an earlier expression (all expressions are resolved before the first
+    `format()` call), not whatever comes after `f`, not a syntax error further right (the parser is
+    lazy). For all strings, contexts, fuel, flags. -/
+theorem missing_key_any_field (fuel : Nat) (ctx : Ctx) (isRec : Bool) (s : List Char)
+    (pre : List Tup) (lit : List Char) (f : FieldT) (rest : List Tup) (perr : Option Exc)
+    (hp : parseTuples s = (pre ++ ⟨lit, some f⟩ :: rest, perr))
+    (hpre : ∀ t ∈ pre, ∀ g, t.field = some g →
+      Named g.name ∧ ∃ r, Spec.fieldObj (fun r v => Format.fmtIter fuel ctx r v) ctx isRec g = .ok r)
+    (hn : Named f.name) (k : String)
+    (hk : firstKey f.name = some k) (hmiss : Ctx.get? ctx k = none)
+    (hascii : f.name.any (fun c => c.toNat ≥ 128) = false) :
+    Format.fmtKeepType (fuel + 1) ctx isRec s = .error (keyNotInContext k) := by
+  unfold Format.fmtKeepType keepType
+  simp only [hp]
+  obtain ⟨result', hr⟩ := ktLoop_prefix (fun r v => Format.fmtIter fuel ctx r v) ctx isRec pre
+    (⟨lit, some f⟩ :: rest) perr [] hpre
+  rw [hr, ktLoop_cons]
+  simp only [ktField_missing _ ctx isRec f _ hn k hk hmiss hascii]
+
+/-- the missing key is the third expression; the first has a conversion and a nested spec, the second an
+    `rf`; the first would fail in `format()` (`>{w}` with `w = 'q'` is no spec for a str: "Invalid format
+    specifier") and the string ends in a syntax error — the key-lookup error wins over both -/
+example : parseTuples "a{l!r:>{q}} {r:rf}|{zz[0]:>4}{b:q} {".toList =
+      ([⟨['a'], some ⟨['l'], ">{q}".toList, some 'r'⟩⟩, ⟨[' '], some ⟨['r'], ['r', 'f'], none⟩⟩] ++
+        ⟨['|'], some ⟨"zz[0]".toList, ">4".toList, none⟩⟩ ::
+        [⟨[], some ⟨['b'], ['q'], none⟩⟩], some errSingleOpen) ∧
+    Spec.fieldObj (fun r v => Format.fmtIter 6 (("r", .str "{b}") :: ("q", .str "qq") :: exCtx) r v)
+      (("r", .str "{b}") :: ("q", .str "qq") :: exCtx) false ⟨['l'], ">{q}".toList, some 'r'⟩ =
+        .ok (.list [.int 1, .str "{b}"], some 'r', ">qq".toList) ∧
+    Spec.fieldObj (fun r v => Format.fmtIter 6 (("r", .str "{b}") :: ("q", .str "qq") :: exCtx) r v)
+      (("r", .str "{b}") :: ("q", .str "qq") :: exCtx) false ⟨['r'], ['r', 'f'], none⟩ = .ok (.int 5, none, ['r', 'f']) ∧
+    firstKey "zz[0]".toList = some "zz" ∧
+    Format.fmtVal 8 (("r", .str "{b}") :: ("q", .str "qq") :: exCtx) (.str "a{l!r:>{q}} {r:rf}|{zz[0]:>4}{b:q} {") =
+      .error (keyNotInContext "zz") := by
+  refine ⟨by rfl, by rfl, by rfl, by rfl, by rfl⟩
 
 /-- … also through recursion: `'{a}'` where `context[a]` is a string with an expression whose key is
     missing never yields a value. -/
